@@ -170,6 +170,7 @@ func firstUse(cx *lib.Ctx) {
 	nilContext(cx)
 	deepDynamic(cx)
 	partialTrees(cx)
+	userFunctions(cx)
 }
 
 // firstUseBody: the first content extraction on a freshly parsed body, by all goroutines at once, with schemas
